@@ -5,7 +5,7 @@
    equal length.  Constructing a pipeline produces no event at all in this semantics; that the implementation
    agrees is part of the tie (the application log must be empty after building). *)
 From Coq Require Import List Arith Bool.
-Require Import LD.Base LD.Trace LD.TraceProofs.
+Require Import LD.Base LD.Trace LD.TraceTie LD.TraceProofs LD.TraceKey LD.TraceKeyProofs.
 Import ListNotations.
 Local Open Scope nat_scope.
 
@@ -70,3 +70,23 @@ Proof. exact get_slice_support. Qed.
 Print Assumptions C08_getitem_map_support.
 Print Assumptions C08_getitem_batch_support.
 Print Assumptions C08_getitem_slice_support.
+
+(* ds[key] (TraceKey.v: map / filter / concatenate / selection over dict-backed sources; a key names one source
+   example): one lookup applies the function of every stage at most once, and only functions of stages of this
+   pipeline ... *)
+Theorem C08_getkey_once_per_stage : forall d k, NoDup (ids_of d) -> NoDup (map fst (apps (events_of (getk_s d k)))).
+Proof. exact getk_apps_once. Qed.
+Theorem C08_getkey_only_own_stages : forall d k i a, In (i, a) (apps (events_of (getk_s d k))) -> In i (ids_of d).
+Proof. exact getk_apps_ids. Qed.
+(* ... returns an example of the dataset ... *)
+Theorem C08_getkey_value_is_example : forall d, NoDup (ids_of d) -> forall k e v, getk_s d k = KVal e v -> In v (lref d).
+Proof. exact getk_value_in_ref. Qed.
+(* ... and, where the pipeline has a key view, looking up the i-th key causes exactly the events (hence the same
+   function applications) and returns exactly the value of looking up position i. *)
+Theorem C08_getkey_is_getindex : forall d, NoDup (ids_of d) -> lwf d -> forall ks i k,
+  keys_s d = Some ks -> nth_error ks i = Some k -> exists e v, get_s d i = Some (e, v) /\ getk_s d k = KVal e v.
+Proof. exact getk_agrees_with_index. Qed.
+Print Assumptions C08_getkey_once_per_stage.
+Print Assumptions C08_getkey_only_own_stages.
+Print Assumptions C08_getkey_value_is_example.
+Print Assumptions C08_getkey_is_getindex.
